@@ -24,8 +24,11 @@ def generate():
         try:
             b = S.write_if_changed(os.path.join(gen, "Grammar.v"), lambda p: S.TG.translate(V.REPO, p))
         except Exception as e:
-            e.kept = ["Registry"]          # the registry was read; only the grammar / yylex translation is broken
-            raise
+            if S.grammar_baseline(gen, e):
+                b = "baseline"
+            else:
+                e.kept = ["Registry"]          # the registry was read; only the grammar / yylex translation is broken
+                raise
     return {"registry": a, "grammar": b}
 
 
